@@ -50,11 +50,11 @@ package scheduler
 //@   requires graph_wf(g)
 //@   requires node.data.State.Status == NodeStatusNone
 //@   modifies heap(Node.data.State)
-//@   ensures [C01,C02 ready_means_every_dependency_lets_it_proceed] ready ==>
+//@   ensures [C01,C02,C03 ready_means_every_dependency_lets_it_proceed] ready ==>
 //@        (forall j int :: 0 <= j && j < len(g.to[node.id]) ==> dep_ok(g.dict[g.to[node.id][j]]))
-//@   ensures [C01 satisfied_dependencies_make_it_ready]
+//@   ensures [C01,C03 satisfied_dependencies_make_it_ready]
 //@        (forall j int :: 0 <= j && j < len(g.to[node.id]) ==> old(dep_ok(g.dict[g.to[node.id][j]]))) ==> ready
-//@   ensures [C01 ready_keeps_status] ready ==> node.data.State.Status == NodeStatusNone
+//@   ensures [C01,C03 ready_keeps_status] ready ==> node.data.State.Status == NodeStatusNone
 //@   ensures [C02 label_justified] node.data.State.Status == NodeStatusNone ||
 //@        (node.data.State.Status == NodeStatusCancel &&
 //@           (exists j int :: 0 <= j && j < len(g.to[node.id]) && cancel_blocker(g.dict[g.to[node.id][j]]))) ||
@@ -66,10 +66,10 @@ package scheduler
 //@        ==> node.data.State.Status != NodeStatusNone
 //@   ensures [C02 other_steps_are_not_touched_by_the_gate] forall n *Node :: n != node && old(n.data.State.Status) != NodeStatusRunning ==>
 //@        n.data.State.Status == old(n.data.State.Status)
-//@   loop 0 invariant [C01,C02 ready_prefix] ready ==>
+//@   loop 0 invariant [C01,C02,C03 ready_prefix] ready ==>
 //@        (forall j int :: 0 <= j && j <= idx ==> dep_ok(g.dict[g.to[node.id][j]]))
-//@   loop 0 invariant [C01 ok_prefix] (forall j int :: 0 <= j && j <= idx ==> old(dep_ok(g.dict[g.to[node.id][j]]))) ==> ready
-//@   loop 0 invariant [C01 ready_unchanged] ready ==> node.data.State.Status == NodeStatusNone
+//@   loop 0 invariant [C01,C03 ok_prefix] (forall j int :: 0 <= j && j <= idx ==> old(dep_ok(g.dict[g.to[node.id][j]]))) ==> ready
+//@   loop 0 invariant [C01,C03 ready_unchanged] ready ==> node.data.State.Status == NodeStatusNone
 //@   loop 0 invariant [not_running] node.data.State.Status != NodeStatusRunning
 //@   loop 0 invariant [C02 label_prefix] node.data.State.Status == NodeStatusNone ||
 //@        (node.data.State.Status == NodeStatusCancel &&
